@@ -29,7 +29,7 @@ from ser import Ids, Ser, Unsupported, rat, env_text, bits_to_float
 from props import c13 as _c13
 
 LEAN_MODULE = "Optyx.Props.C12"
-EXTRA_MODULES = ["Optyx.Props.PinsC12", "Optyx.Props.BuildTie", "Optyx.Props.CompileEntryTie", "Optyx.Props.ParamTie"]   # transcription anchors (harness/source_pins.py)
+EXTRA_MODULES = ["Optyx.Props.PinsC12", "Optyx.Props.BuildTie", "Optyx.Props.CompileEntryTie", "Optyx.Props.ParamTie", "Optyx.Props.ScaledTie"]   # transcription anchors (harness/source_pins.py)
 THEOREMS = [
     "Optyx.Props.C12.denote_substParams",
     "Optyx.Props.C12.grad_substParams",
@@ -56,6 +56,9 @@ THEOREMS = [
     "Optyx.Props.ParamTie.vecSet_other",
     "Optyx.Props.ParamTie.vectorParamSet_spec",
     "Optyx.Props.ParamTie.matrixParamSet_spec",
+    "Optyx.Props.ScaledTie.scaledEntry_eq",
+    "Optyx.Props.ScaledTie.scaledLoop_step",
+    "Optyx.Props.ScaledTie.scaledPattern_frame",
     "Optyx.Props.PinsC12.anchors",
 ]
 ASSUMPTIONS = [
